@@ -86,6 +86,18 @@ READ_ONLY = ["t_cirq", "t_sympy", "t_ionq", "t_projectq", "sim_cirq", "sim_sympy
              "fn_rsr", "fn_rrg", "fn_merge", "fn_simplify", "ro_split", "ro_stack", "ro_eq", "ro_entangled"]
 
 
+def mutated_ids(op):
+    """ids of stored circuits an operation is allowed to change (everything else must stay as it was)"""
+    k = op["op"]
+    if k in ("add_gate", "trim", "reindex"):
+        return {op["dst"]}
+    if k in ("rsr", "rrg", "merge", "simplify"):
+        return {op["a"]}
+    if k in ("new", "add", "mul", "copy", "inverse", "stack", "fn_rsr", "fn_rrg", "fn_merge", "fn_simplify"):
+        return {op["dst"]}
+    return set()        # split writes fresh ids only; read-only ops change nothing
+
+
 def py_apply(store, op):
     """apply op to the real circuits; returns result value (comparable) or 'ERR:*' """
     from tangelo.linq import Circuit, Gate, translate_circuit, get_backend, stack
